@@ -89,6 +89,7 @@ class Ctx:
         self.by_name = {}
         self.spec = {}
         self.host = {}        # name -> host scheduler object (set at build; pool doers get host when extended)
+        self.host_log = []    # (event seq, name, host) every time a doer is given a host (a pool doer may serve several)
         self.parent = {}      # scheduler name -> its host scheduler (doist has none)
         self.pool = []
         self.doist = None
@@ -161,6 +162,7 @@ def _act(ctx, name, action):
             for o in objs:
                 if vname(o) not in ctx.host or True:
                     ctx.host[vname(o)] = host
+                    ctx.host_log.append((len(tr.ev), vname(o), host))
             try:
                 host.extend(objs)
             except BaseException as ex:
